@@ -5,6 +5,7 @@
 EXTENDS MC3
 
 CONSTANTS DX, DY, DZ,     \* free corners per axis
+          Sample, Seed,   \* Sample = 0: exhaustive; else that many pseudo-random worlds (LCG from Seed)
           Base,           \* 2 = {N,P}, 3 = {N,z,P}, 4 = {N,n,z,P}
           LoDigits,       \* digits enumerated at the second level (parallelism)
           Emit            \* TRUE: print every world as a vector for the replay
@@ -17,9 +18,16 @@ LoN == Pow(Base, LoDigits)
 HiN == Pow(Base, DX * DY * DZ - LoDigits)
 
 Init == phase = 0 /\ hi = 0 /\ code = 0
-PickHi == /\ phase = 0 /\ phase' = 1 /\ hi' \in 0..(HiN - 1) /\ code' = 0
+\* a small linear congruential generator (all products stay below 2^31)
+R(x) == (75 * (x % 65537) + 74) % 65537
+PickHi == /\ phase = 0 /\ phase' = 1 /\ code' = 0
+          /\ hi' \in 0..((IF Sample = 0 THEN HiN ELSE Sample) - 1)
 PickLo == /\ phase = 1 /\ phase' = 2 /\ hi' = hi
-          /\ \E lo \in 0..(LoN - 1) : code' = hi * LoN + lo
+          /\ IF Sample = 0
+             THEN \E lo \in 0..(LoN - 1) : code' = hi * LoN + lo
+             ELSE LET r1 == R(R(Seed * 31 + hi))
+                      r2 == R(r1 + 7)
+                  IN code' = (r1 % HiN) * LoN + (r2 % LoN)
 Next == PickHi \/ PickLo
 Spec == Init /\ [][Next]_vars
 
